@@ -5,7 +5,7 @@
 //! Disk faults place the failure at each pipeline stage. Oracle: the same working
 //! tree's library pipeline, in-process, on the same (faulted) bytes.
 
-use crate::cli::{apply_fault, dep_path, run_wac, squash, ChildResult, Tree};
+use crate::cli::{apply_fault, dep_path, squash, ChildResult, Tree};
 use crate::corpus::library;
 use crate::engine::Run;
 use crate::gen::{gen_doc, shipped_cases, DocCase};
@@ -54,6 +54,8 @@ pub enum Cmd {
 #[derive(Debug, Clone)]
 pub struct Scenario {
     pub tree: Tree,
+    /// the child's stdout is /dev/full (every write fails)
+    pub stdout_full: bool,
     pub cmd: Cmd,
     pub faults: Vec<(&'static str, String)>,
     pub label: String,
@@ -202,7 +204,10 @@ pub fn gen_compose(t: &mut Tape, max_statements: u64) -> Scenario {
     let doc = pick_doc(t, max_statements);
     let mut tree = Tree::default();
     tree.dir("home");
-    tree.file("src.wac", doc.source.clone().into_bytes());
+    // the source may live in another directory than the one the command runs in; relative
+    // `--deps-dir` (and the default `deps`) are relative to the working directory
+    let src_path = if t.chance(1, 5) { "proj/src.wac" } else { "src.wac" };
+    tree.file(src_path, doc.source.clone().into_bytes());
     let deps_dir_flag = if t.chance(1, 2) { Some("pkgs".to_string()) } else { None };
     let deps = deps_dir_flag.clone().unwrap_or_else(|| "deps".to_string());
     let mut unversioned: Vec<String> = Vec::new();
@@ -261,10 +266,24 @@ pub fn gen_compose(t: &mut Tape, max_statements: u64) -> Scenario {
             }
         }
     }
+    if src_path != "src.wac" {
+        // a decoy tree of the same name next to the source: other (valid) components
+        let lib = library();
+        let comps = crate::corpus::component_indices();
+        for (name, version, _) in &doc.packages {
+            if t.chance(1, 2) {
+                let other = &lib[comps[t.index(comps.len())]];
+                tree.file(
+                    format!("proj/{}", dep_path(&deps, name, version.as_deref(), "wasm")),
+                    other.bytes.clone(),
+                );
+            }
+        }
+    }
     let wat = t.chance(1, 3);
     let output = output_choice(t, &mut tree, if wat { "wat" } else { "wasm" });
     let case = ComposeCase {
-        src: "src.wac".into(),
+        src: src_path.into(),
         deps_dir: deps_dir_flag,
         deps: dep_flags,
         no_validate: t.chance(1, 3),
@@ -279,12 +298,12 @@ pub fn gen_compose(t: &mut Tape, max_statements: u64) -> Scenario {
         let on_source = t.chance(1, 3);
         let f = if on_source {
             let mut only: Tree = Tree::default();
-            if let Some(b) = tree.files.get("src.wac") {
-                only.file("src.wac", b.clone());
+            if let Some(b) = tree.files.get(src_path) {
+                only.file(src_path, b.clone());
             }
-            let r = apply_fault(t, &mut only, SOURCE_FAULTS, Some("src.wac"));
+            let r = apply_fault(t, &mut only, SOURCE_FAULTS, Some(src_path));
             if r.is_some() {
-                tree.files.remove("src.wac");
+                tree.files.remove(src_path);
                 for (p, b) in only.files {
                     tree.files.insert(p, b);
                 }
@@ -317,8 +336,14 @@ pub fn gen_compose(t: &mut Tape, max_statements: u64) -> Scenario {
             faults.push(f);
         }
     }
+    // output to a full device (only meaningful when the output goes to stdout)
+    let stdout_full = case.output.is_none() && t.chance(1, 8);
+    if stdout_full {
+        faults.push(("stdout_full", "stdout".to_string()));
+    }
     Scenario {
         tree,
+        stdout_full,
         cmd: Cmd::Compose(case),
         faults,
         label: doc.label,
@@ -384,8 +409,13 @@ pub fn gen_plug(t: &mut Tape) -> Scenario {
             faults.push(f);
         }
     }
+    let stdout_full = output.is_none() && t.chance(1, 8);
+    if stdout_full {
+        faults.push(("stdout_full", "stdout".to_string()));
+    }
     Scenario {
         tree,
+        stdout_full,
         cmd: Cmd::Plug(PlugCase {
             socket: "socket.wasm".into(),
             plugs,
@@ -408,8 +438,13 @@ pub fn gen_parse(t: &mut Tape) -> Scenario {
             faults.push(f);
         }
     }
+    let stdout_full = t.chance(1, 8);
+    if stdout_full {
+        faults.push(("stdout_full", "stdout".to_string()));
+    }
     Scenario {
         tree,
+        stdout_full,
         cmd: Cmd::Parse("src.wac".into()),
         faults,
         label: doc.label,
@@ -462,6 +497,7 @@ pub fn gen_targets(t: &mut Tape) -> Scenario {
     }
     Scenario {
         tree,
+        stdout_full: false,
         cmd: Cmd::Targets(TargetsCase {
             component: "comp.wasm".into(),
             wit,
@@ -827,7 +863,7 @@ pub fn run(run: &mut Run) {
         sc.tree.files.len(),
         sc.tree.dirs.len()
     ));
-    if let Some(src) = sc.tree.files.get("src.wac") {
+    if let Some(src) = sc.tree.files.get("src.wac").or_else(|| sc.tree.files.get("proj/src.wac")) {
         for l in String::from_utf8_lossy(src).lines().take(60) {
             t.event(format!("  | {l}"));
         }
@@ -842,7 +878,7 @@ pub fn run(run: &mut Run) {
     }
     let out_path = sc.cmd.output().cloned();
     let before = snapshot_output(&root, out_path.as_ref());
-    let child = match run_wac(&root, &args, hash_seed, 30) {
+    let child = match crate::cli::run_wac_io(&root, &args, hash_seed, 30, sc.stdout_full) {
         Ok(c) => c,
         Err(e) => {
             run.harness(format!("cannot run the wac binary: {e}"));
@@ -914,7 +950,26 @@ pub fn run(run: &mut Run) {
                     p.parent().map(|d| !d.is_dir()).unwrap_or(false) || p.is_dir()
                 })
                 .unwrap_or(false);
-            if write_must_fail {
+            let stdout_must_fail = sc.stdout_full && out_path.is_none() && !(ok.bytes.is_empty() && !ok.newline_on_stdout);
+            if stdout_must_fail {
+                run.cover("stages", format!("{}:stdout-write-failure", sc.cmd.name()));
+                run.probe("stdout_full_with_output");
+                if child.code == Some(0) {
+                    run.violate(
+                        "exit-mismatch",
+                        format!(
+                            "`{inv}` exited 0 although none of its {} output bytes could be written to stdout (stdout is a full device); {}",
+                            ok.bytes.len(),
+                            describe_child(&child)
+                        ),
+                    );
+                } else if String::from_utf8_lossy(&child.stderr).trim().is_empty() {
+                    run.violate(
+                        "missing-diagnostic",
+                        format!("`{inv}` failed to write to stdout but printed no diagnostic; {}", describe_child(&child)),
+                    );
+                }
+            } else if write_must_fail {
                 run.cover("stages", format!("{}:write-failure", sc.cmd.name()));
                 if child.code == Some(0) {
                     run.violate(
